@@ -4,6 +4,7 @@ import (
 	"bytes"
 	"context"
 	"fmt"
+	"github.com/itchio/headway/state"
 	"os"
 	"path/filepath"
 	"testing"
@@ -54,7 +55,7 @@ func TestC06(t *testing.T) {
 		mode := rapid.IntRange(0, 9).Draw(rt, "damagemode") // 0 pristine, 1 empty dir, 2 missing dir, else faults
 		var faults []Fault
 		if mode > 2 {
-			faults = GenFaults(rt, signed, FaultOpts{Content: true, Delete: true, KindSwap: true, Links: true, MaxFaults: 6})
+			faults = GenFaults(rt, signed, FaultOpts{Content: true, Delete: true, KindSwap: true, Links: true, Special: true, MaxFaults: 6})
 		}
 		if mode > 2 && rapid.IntRange(0, 7).Draw(rt, "twins") == 0 {
 			// twin subtrees, one of them replaced by a symlink to the other (or to the parent): its
@@ -92,6 +93,19 @@ func TestC06(t *testing.T) {
 		defer cleanup()
 		pristine := filepath.Join(dir, "signed")
 		si := signTree(signed, pristine)
+		if rapid.IntRange(0, 2).Draw(rt, "shuffledirs") == 0 {
+			shuffleDirs(si, rapid.Uint64().Draw(rt, "shuffleseed"))
+		}
+		// the caller's consumer may have any subset of its callbacks set
+		cons := Quiet()
+		switch rapid.IntRange(0, 5).Draw(rt, "consumerkind") {
+		case 0:
+			cons = &state.Consumer{OnProgressLabel: func(string) {}}
+		case 1:
+			cons = &state.Consumer{OnMessage: func(string, string) {}}
+		case 2:
+			cons = &state.Consumer{OnProgress: func(float64) {}}
+		}
 		zipPath := filepath.Join(dir, "build.zip")
 		zipOf(pristine, zipPath)
 		target := filepath.Join(dir, "target")
@@ -111,7 +125,7 @@ func TestC06(t *testing.T) {
 		var verr error
 		s := &Sched{Spec: spec, MaxSteps: 400000}
 		s.Run(t, func() {
-			vctx := &pwr.ValidatorContext{HealPath: "archive," + zipPath, Consumer: Quiet()}
+			vctx := &pwr.ValidatorContext{HealPath: "archive," + zipPath, Consumer: cons}
 			verr = vctx.Validate(context.Background(), target, si)
 		})
 		if s.BudgetExceeded {
